@@ -105,6 +105,7 @@ func TestVerifC02Reads(t *testing.T) {
 		}
 		defer b.close()
 		defer verifhook.Set(nil)
+		b.onExclude = stats.Exclude
 		cls := map[string]bool{"index:" + idx: true}
 		var canon strings.Builder
 		var sample []string
